@@ -186,8 +186,17 @@ def nameInitial (name : Str) : Str :=
   | some p => p.take 1
   | none => []
 
-/-- `allowedProps` is consulted only when truthy (97) -/
+/-- a *declared* allow-list (`allowedProps is not None`) must list every keyword; a declared empty list allows
+    nothing.  This is what C20 demands ("a prop outside a declared allow-list is rejected at construction") and what
+    the docstring of `jsx_tag_create` says ("If None, all properties are allowed"). -/
 def propsAllowed (allowed : Option (List Str)) (kwargs : List (Str × JVal)) : Bool :=
+  match allowed with
+  | none => true
+  | some ps => kwargs.all fun kv => ps.contains kv.1
+
+/-- `_jsx.py` as pinned (97): `if allowedProps:` — truthiness, so a declared empty list is "no restriction"
+    (defect F-C20b; `C20_allowed_fails_for_pinned`) -/
+def propsAllowedPinned (allowed : Option (List Str)) (kwargs : List (Str × JVal)) : Bool :=
   match allowed with
   | none => true
   | some [] => true
@@ -202,6 +211,16 @@ def jsxInit (upper : Str → Str) (name : Str) (allowed : Option (List Str))
   else .ok (.comp name (mkProps kwargs) kids)
 
 /-! ### _render_react_js / _serialize_attr / _serialize_style_attr -/
+
+/-- the JavaScript for a number whose Python `str()` is `t`: a finite number is written as Python writes it; Python
+    writes the non-finite floats as `inf` / `-inf` / `nan`, which are not JavaScript numbers (bare identifiers that
+    are not defined), and C20 demands "numbers … written as the corresponding JavaScript": `Infinity` / `-Infinity` /
+    `NaN`.  The pinned `_serialize_attr` (`str(x)`, 281-282) writes `t` for every number (defect F-C20c). -/
+def numJs (t : Str) : Str :=
+  if t = chars% "inf" then chars% "Infinity"
+  else if t = chars% "-inf" then chars% "-Infinity"
+  else if t = chars% "nan" then chars% "NaN"
+  else t
 
 def sCreate : Str := chars% "React.createElement("
 
@@ -264,7 +283,7 @@ mutual
   def JVal.serialize : JVal → Except Err Str
     | .null => .ok chars% "null"
     | .bool b => .ok (if b then chars% "true" else chars% "false")
-    | .num t => .ok t
+    | .num t => .ok (numJs t)
     | .list _ vs =>
       match vs.serializeAll with
       | .error e => .error e
